@@ -14,10 +14,10 @@
    ... of Model/Divisor.v, tied to votelib/component/divisor.py by Props/GenTie_Divisor.v).  The
    multipliers come from the implementation's own state (verif hook) or from an exact solver in the
    harness; either way they are only a certificate. *)
-From Coq Require Import ZArith QArith List Bool Lia.
+From Coq Require Import ZArith QArith List Bool Lia Lqa.
 From VL Require Import Prelude.PyDict Model.Divisor Model.HighestAverages Model.Biprop Model.BipropLoop
      Proofs.Dict_proofs Proofs.Divisor_proofs Proofs.Biprop_proofs Proofs.Biprop_steps Proofs.BipropRow_proofs
-     Proofs.BipropLoop_proofs Proofs.BipropInit_proofs Proofs.BipropProgress_proofs Proofs.BipropTerm_proofs Proofs.BipropFlow_proofs Proofs.BipropRefusal_proofs.
+     Proofs.BipropLoop_proofs Proofs.BipropInit_proofs Proofs.BipropProgress_proofs Proofs.BipropTerm_proofs Proofs.BipropFlow_proofs Proofs.BipropRefusal_proofs Proofs.BipropNoKey_proofs.
 Import ListNotations.
 Open Scope Z_scope.
 
@@ -468,11 +468,29 @@ Proof.
   apply (C07_terminates d q k votes n tgt dorder _ Hq0 Hq1 Hk Hd Hwf Hv Hdo). apply le_n.
 Qed.
 
-(* 7''. TOTAL CORRECTNESS of the model of evaluate (the code as it stands), in one statement: with the fuel of C07_terminates and
-        for the two rounding rules the evaluator supports, the answer is a certified seat matrix, or a refusal that is
-        justified (no seat matrix with the marginals and empty cells where there are no votes exists); it is never a
-        ZeroDivisionError nor the out-of-fuel answer.  Left open: a tied party apportionment (outside the property's
-        quantifier), the ValueError of HighestAverages (n = 0) and KeyError (not excluded here; observed per instance) *)
+(* 7''. NO KeyError (wave 6): with a target dictionary without foreign keys ([dorder] within the districts) the model of
+        evaluate never answers [BP_key_error] - the labelling search only reads rows of districts, the label dictionaries
+        point backwards (the party that labelled a district was labelled from a district of lower rank), so the path walk of
+        _augment_result pops every set once, visits no district twice and ends at an over-represented district, and every cell
+        that loses a seat on the way is stored; the initial solution has a row for every district
+        (Proofs/BipropNoKey_proofs.v).  No hypothesis on the invariant is needed. *)
+Theorem C07_no_key_error : forall d q k votes n tgt dorder strict fuel,
+  (q < 1)%Q -> (0 < k)%Q -> (forall z, d z == k * (inject_Z z + 1 - q))%Q ->
+  wf_votes votes -> (forall i j, 0 <= mget votes i j) -> NoDup dorder -> incl dorder (districts votes) ->
+  evaluate_core d q votes tgt dorder strict n fuel <> BP_key_error.
+Proof.
+  intros d q k votes n tgt dorder strict fuel Hq1 Hk Hd Hwf Hv Hdo Hdo2.
+  exact (evaluate_core_nokey d q k votes tgt dorder strict n fuel Hq1 Hk Hd Hwf Hv Hdo Hdo2).
+Qed.
+
+(* 7'''. TOTAL CORRECTNESS of the model of evaluate (the code as it stands), in one statement: with the fuel of C07_terminates,
+         for the two rounding rules the evaluator supports and a target dictionary over exactly the districts, the answer is
+           - a seat matrix certified by the final multipliers (both marginals, zero cells, every cell a rounding), or
+           - a refusal (VotingSystemError: no votes / invalid adjustment coefficient) and then NO seat matrix with the
+             marginals and empty cells where there are no votes exists, or
+           - the Tie / ValueError of the apportionment of the party seats, and then there is no tie-free party marginal
+             (outside the property's quantifier);
+         never a KeyError, a ZeroDivisionError, nor the out-of-fuel answer *)
 Theorem C07_total_correct : forall d q k votes n tgt dorder fuel,
   (0 <= q)%Q -> (q < 1)%Q -> (q == 0 \/ q == 1 # 2)%Q -> (0 < k)%Q -> (forall z, d z == k * (inject_Z z + 1 - q))%Q ->
   wf_votes votes -> (forall i j, 0 <= mget votes i j) -> 0 <= n ->
@@ -489,19 +507,67 @@ Theorem C07_total_correct : forall d q k votes n tgt dorder fuel,
   | BP_refused a =>
       exists pseats, ha_marginal d (party_totals votes) n = Some pseats /\
         forall res, ~ biprop_spec d (districts votes) (parties votes) votes tgt pseats res
-  | BP_zero_division | BP_out_of_fuel => False
-  | BP_party_tie | BP_district_tie | BP_value_error | BP_key_error => True
+  | BP_party_tie | BP_value_error => ha_marginal d (party_totals votes) n = None
+  | BP_zero_division | BP_key_error | BP_district_tie | BP_out_of_fuel => False
   end.
 Proof.
   intros d q k votes n tgt dorder fuel Hq0 Hq1 Hq Hk Hd Hwf Hv Hn Hdo Hdo1 Hdo2 Hf.
-  destruct (evaluate_core d q votes tgt dorder true n fuel) as [res rho gamma|a| | | | | | |] eqn:E; try exact I.
+  assert (Hd0 : (0 < d 0%Z)%Q) by (rewrite Hd; change (inject_Z 0) with 0%Q; nra).
+  destruct (evaluate_core d q votes tgt dorder true n fuel) as [res rho gamma|a| | | | | | |] eqn:E.
   - exact (C07_evaluate_partial_correct d q k votes n tgt dorder fuel res rho gamma Hq0 Hq1 Hk Hd Hwf Hv Hn Hdo1 E).
   - destruct (C07_refusal_justified d q k votes n tgt dorder fuel a Hq0 Hq1 Hq Hk Hd Hwf Hv Hn Hdo Hdo1 Hdo2 E) as (pseats & Hp & _ & Hinf).
     exists pseats. split; [exact Hp|exact Hinf].
   - exact (evaluate_core_no_zerodiv d q k votes tgt dorder true n fuel Hq0 Hq1 Hk Hd Hwf Hv Hn (or_introl eq_refl) E).
+  - exact (C07_no_key_error d q k votes n tgt dorder true fuel Hq1 Hk Hd Hwf Hv Hdo Hdo2 E).
+  - apply (evaluate_core_marginal_errors d q votes tgt dorder true n fuel Hd0). left. exact E.
+  - apply (evaluate_core_marginal_errors d q votes tgt dorder true n fuel Hd0). right. exact E.
+  - exact (evaluate_core_no_district_tie d q votes tgt dorder true n fuel E).
   - intros pseats Hp. apply (C07_no_votes_refusal_justified d q k votes n pseats Hq0 Hq1 Hk Hd Hv Hn); [|exact Hp].
     apply (proj1 (proj1 (C07_no_votes_refusal d q votes tgt dorder n fuel)) E).
   - exact (C07_terminates d q k votes n tgt dorder fuel Hq0 Hq1 Hk Hd Hwf Hv Hdo Hf E).
+Qed.
+
+(* ... and with the seats given as a total (districts apportioned by the same HighestAverages model) *)
+Theorem C07_total_correct_seats_total : forall d q k votes n dorder fuel,
+  (0 <= q)%Q -> (q < 1)%Q -> (q == 0 \/ q == 1 # 2)%Q -> (0 < k)%Q -> (forall z, d z == k * (inject_Z z + 1 - q))%Q ->
+  wf_votes votes -> (forall i j, 0 <= mget votes i j) -> 0 <= n ->
+  NoDup dorder -> incl (districts votes) dorder -> incl dorder (districts votes) ->
+  (fuel_bound_total d q votes dorder n <= fuel)%nat ->
+  match evaluate_total d q votes true n dorder fuel with
+  | BP_ok res rho gamma =>
+      exists pseats dseats, ha_marginal d (party_totals votes) n = Some pseats /\
+        ha_marginal d (district_totals votes) n = Some dseats /\
+        cert_ok d (districts votes) (parties votes) votes dseats pseats res (scale_k k rho) gamma = true /\
+        biprop_spec d (districts votes) (parties votes) votes dseats pseats res
+  | BP_no_votes =>
+      forall pseats, ha_marginal d (party_totals votes) n = Some pseats ->
+        forall dseats res, ~ biprop_spec d (districts votes) (parties votes) votes dseats pseats res
+  | BP_refused a =>
+      exists pseats dseats, ha_marginal d (party_totals votes) n = Some pseats /\
+        ha_marginal d (district_totals votes) n = Some dseats /\
+        forall res, ~ biprop_spec d (districts votes) (parties votes) votes dseats pseats res
+  | BP_party_tie | BP_value_error | BP_district_tie =>
+      ha_marginal d (party_totals votes) n = None \/ ha_marginal d (district_totals votes) n = None
+  | BP_zero_division | BP_key_error | BP_out_of_fuel => False
+  end.
+Proof.
+  intros d q k votes n dorder fuel Hq0 Hq1 Hq Hk Hd Hwf Hv Hn Hdo Hdo1 Hdo2 Hf.
+  pose proof (fun tgt f Hb => C07_total_correct d q k votes n tgt dorder f Hq0 Hq1 Hq Hk Hd Hwf Hv Hn Hdo Hdo1 Hdo2 Hb) as TC.
+  unfold evaluate_total. unfold fuel_bound_total in Hf.
+  destruct (refuses_empty votes true) eqn:Er.
+  - specialize (TC [] (fuel_bound d q votes [] dorder n) (le_n _)). unfold evaluate_core in TC. rewrite Er in TC. exact TC.
+  - destruct (binit d q votes n) as [e|s] eqn:Ei.
+    + specialize (TC [] fuel). unfold evaluate_core, fuel_bound in TC. rewrite Er, Ei in TC. specialize (TC (Nat.le_0_l _)).
+      destruct e; try exact TC; try (left; exact TC);
+        exfalso; unfold binit in Ei; destruct (initial_solution d votes n); discriminate.
+    + destruct (evaluate d (district_totals votes) n [] []) as [tgt [t|]|] eqn:Et.
+      * right. unfold ha_marginal. rewrite Et. reflexivity.
+      * specialize (TC tgt fuel Hf).
+        assert (Hds : ha_marginal d (district_totals votes) n = Some tgt) by (unfold ha_marginal; rewrite Et; reflexivity).
+        destruct (evaluate_core d q votes tgt dorder true n fuel) as [res rho gamma|a| | | | | | |]; try exact TC; try (left; exact TC); try (exfalso; exact TC).
+        -- destruct TC as (pseats & Hp & Hc & Hs). exists pseats, tgt. auto.
+        -- destruct TC as (pseats & Hp & Hinf). exists pseats, tgt. auto.
+      * right. unfold ha_marginal. rewrite Et. reflexivity.
 Qed.
 
 (* 8. what the wire unit 105 runs (one pass that returns the trace and the outcome) IS the model of the theorems above *)
@@ -647,5 +713,7 @@ Print Assumptions C07_loop_terminates.
 Print Assumptions C07_terminates.
 Print Assumptions C07_total_terminates.
 Print Assumptions C07_termination.
+Print Assumptions C07_no_key_error.
 Print Assumptions C07_total_correct.
+Print Assumptions C07_total_correct_seats_total.
 Print Assumptions C07_unit_runs_the_model.
